@@ -937,6 +937,9 @@ pub trait Allocator: sealed::Sealed {
   /// let arena = Options::new().with_capacity(100).alloc::<Arena>().unwrap();
   /// arena.increase_discarded(100);
   /// ```
+  ///
+  /// # Panic
+  /// - If the allocator is read-only, then this method will panic.
   fn increase_discarded(&self, size: u32);
 
   /// Returns `true` if the allocator is created through memory map.
@@ -1152,6 +1155,9 @@ pub trait Allocator: sealed::Sealed {
   /// let arena = Options::new().with_capacity(100).alloc::<Arena>().unwrap();
   /// arena.set_minimum_segment_size(100);
   /// ```
+  ///
+  /// # Panic
+  /// - If the allocator is read-only, then this method will panic.
   fn set_minimum_segment_size(&self, size: u32);
 
   /// Returns `true` if the allocator is unify memory layout.
